@@ -345,7 +345,9 @@ class Check(PropertyCheck):
             'two iterators (length <= 2n+2) and three (length <= n+3) for small coordinates plus random schedules of next() calls; '
             'histories: the SAME PixCoord object through 3-8 calls of '
             'to_sky with varying (wcs object, origin, mode), from_sky of the last result in another convention, in-place edits of an '
-            'element of pc.x / pc.y, separation / rotate twice with the same argument objects - every call compared with the '
+            'element of pc.x / pc.y, separation / rotate twice with the same argument objects, copy() / copy.deepcopy / copy.copy called '
+            'repeatedly on the object and on a twin holding the same x/y arrays with edits of the original and of single copies in between '
+            '(every copy = the current values, shares no memory with the original or any other copy, is unaffected by later edits) - every call compared with the '
             'answer for that call on the current values, receiver and arguments unchanged. Non-trivial = the constructor succeeded on a non-empty coordinate.')
     assumptions = [
         'numpy broadcasting (shape rule and broadcast values) is the standard right-aligned rule stated in Impl/PixCoord.lean '
@@ -741,9 +743,31 @@ class Check(PropertyCheck):
                 p[k]['form'] = 'ndarray'
         editable = (not broadcast) and s != [] and prod(s) > 0
         steps = []
+        copy_flavour = rng.random() < 0.4
+        ncopies = 0
+        def edit_step(attr_of=None):
+            k = rng.choice(['x', 'y'])
+            c0 = Fraction(w0['crpix'][cref(w0, k)])
+            v = Fraction(rng.randint(-400, 400), 8) + c0 if p[k]['dtype'] == 'float' else Fraction(rng.randint(-50, 50) + round(c0))
+            return {'attr': k, 'idx': rng.randrange(prod(s)), 'val': frac(v)}
         for _ in range(rng.randint(3, 8)):
             r = rng.random()
-            if r < 0.5 or not steps:
+            if copy_flavour and r < 0.85:
+                # copies of the same object (or of a twin holding the same x/y arrays), edits of the original between them,
+                # edits of one of the copies
+                r2 = rng.random()
+                if r2 < 0.5 or ncopies == 0:
+                    how = rng.choice(['copy', 'copy', 'copy', 'copy.deepcopy', 'copy.copy'])
+                    steps.append({'op': 'copy', 'how': how, 'who': rng.choice(['self', 'self', 'twin'])})
+                    ncopies += how != 'copy.copy'
+                elif r2 < 0.75 and editable:
+                    steps.append(dict(op='edit', **edit_step()))
+                elif s != [] and prod(s) > 0:
+                    steps.append(dict(op='copy_edit', k=rng.randrange(4), **edit_step()))
+                else:
+                    steps.append({'op': 'copy', 'how': 'copy', 'who': 'self'})
+                    ncopies += 1
+            elif r < 0.5 or not steps:
                 steps.append({'op': 'to_sky', 'wcs': rng.choice([0, 0, 0, 1]), 'origin': rng.choice([0, 1]), 'mode': rng.choice(['all', 'wcs'])})
             elif r < 0.62 and any(st['op'] == 'to_sky' for st in steps):
                 steps.append({'op': 'from_sky', 'wcs': rng.choice([0, 0, 1]), 'origin': rng.choice([0, 1]), 'mode': rng.choice(['all', 'wcs'])})
@@ -778,11 +802,18 @@ class Check(PropertyCheck):
         st = self._hist_state0(case)
         last = None
         out = []
+        copies = []
         for step in case['steps']:
             cur = {'shape': st['shape'], 'x': list(st['x']), 'y': list(st['y'])}
             if step['op'] == 'edit':
                 cur[step['attr']][step['idx']] = Fraction(step['val'])
                 st = cur
+            if step['op'] == 'copy' and step['how'] != 'copy.copy':
+                copies.append({'shape': cur['shape'], 'x': list(cur['x']), 'y': list(cur['y'])})
+            if step['op'] == 'copy_edit' and copies:
+                c = copies[step['k'] % len(copies)]
+                c[step['attr']][step['idx']] = Fraction(step['val'])
+            step = dict(step, _copies=[{'shape': c['shape'], 'x': list(c['x']), 'y': list(c['y'])} for c in copies])
             out.append((step, cur, last))
             if step['op'] == 'to_sky':
                 last = (step, cur)
@@ -810,6 +841,7 @@ class Check(PropertyCheck):
             return {'ctor': p}
         wcss = [mk_wcs(w) for w in case['wcss']]
         others = {}
+        copies = []
         last = None
         res = []
         for i, step in enumerate(case['steps']):
@@ -836,6 +868,36 @@ class Check(PropertyCheck):
                 e = attempt(ed)
                 if is_err(e):
                     r['edit'] = e
+            elif op == 'copy':
+                import copy as _copy
+                if step['who'] == 'twin' and 'twin' not in others:
+                    others['twin'] = PixCoord(p.x, p.y)                # another coordinate holding the same x / y objects
+                src = others['twin'] if step['who'] == 'twin' else p
+                c = attempt(lambda: src.copy() if step['how'] == 'copy' else
+                            (_copy.copy(src) if step['how'] == 'copy.copy' else _copy.deepcopy(src)))
+                if is_err(c):
+                    r['copy'] = c
+                else:
+                    r['copy'] = canon_pc(c)
+                    r['is_pixcoord'] = type(c).__name__ == 'PixCoord'
+                    def shares(a, b):
+                        if a.isscalar or b.isscalar or not np.size(a.x):
+                            return False
+                        return bool(any(np.shares_memory(u, v) for u in (a.x, a.y) for v in (b.x, b.y)))
+                    if step['how'] != 'copy.copy':
+                        r['shares_orig'] = shares(c, p)
+                        r['shares_prev'] = [shares(c, d) for d in copies]
+                        copies.append(c)
+            elif op == 'copy_edit':
+                if copies:
+                    def ed2():
+                        a = getattr(copies[step['k'] % len(copies)], step['attr'])
+                        v = Fraction(step['val'])
+                        a[np.unravel_index(step['idx'], a.shape)] = int(v) if a.dtype.kind in 'iu' else float(v)
+                        return True
+                    e = attempt(ed2)
+                    if is_err(e):
+                        r['edit'] = e
             elif op == 'sep':
                 key = json.dumps(step['o'], sort_keys=True)
                 o = others.setdefault(key, mk_coord(step['o']))        # the SAME other object for the repeated call
@@ -852,6 +914,7 @@ class Check(PropertyCheck):
                 if not is_err(q) and not p.isscalar and np.size(p.x):
                     r['aliased'] = bool(np.shares_memory(q.x, p.x) or np.shares_memory(q.y, p.y))
             r['state'] = canon_pc(p)
+            r['copies'] = [canon_pc(c) for c in copies]
             res.append(r)
         return {'steps': res}
 
@@ -875,6 +938,8 @@ class Check(PropertyCheck):
                              'all': step['mode'] == 'all'})
             elif op == 'edit':
                 reqs.append(dict(op='pc.ctor', **pj))
+            elif op == 'copy':
+                reqs.append({'op': 'pc.copy', 'p': pj})
             elif op == 'sep':
                 reqs.append({'op': 'pc.sep2', 'p': pj, 'q': self._jc(step['o'])})
             elif op == 'rotate':
@@ -902,6 +967,8 @@ class Check(PropertyCheck):
                 m['res'] = dec_reply(replies[i]); i += 1
             elif op == 'edit':
                 m['state'] = dec_reply(replies[i]); i += 1
+            elif op == 'copy':
+                m['copy'] = dec_reply(replies[i]); i += 1
             elif op == 'sep':
                 m['d2'] = dec_reply(replies[i], lambda j: [[int(n) for n in j['shape']], j['data']]); i += 1
             elif op == 'rotate':
@@ -936,6 +1003,9 @@ class Check(PropertyCheck):
             elif op == 'edit':
                 if 'edit' in r or not same_pc(r['state'], m['state']):
                     return False
+            elif op == 'copy':
+                if not same_pc(r['copy'], m['copy']):
+                    return False
             elif op == 'sep':
                 if not self._sep_close(r['d'], m['d2']):
                     return False
@@ -948,7 +1018,7 @@ class Check(PropertyCheck):
         V = []
         def bad(kind, detail, i):
             V.append({'kind': kind, 'detail': f'{detail} :: history step {i}: '
-                      f'{ {k: v for k, v in case["steps"][i].items() if k in ("op", "wcs", "origin", "mode", "attr", "idx", "val")} }'
+                      f'{ {k: v for k, v in case["steps"][i].items() if k in ("op", "wcs", "origin", "mode", "attr", "idx", "val", "how", "who", "k")} }'
                       f' after {[s_["op"] + (str(s_.get("origin", "")) + s_.get("mode", "")) for s_ in case["steps"][:i]]}', 'step': i})
         if 'ctor' in real:
             if py_bshape(case['p']['x']['shape'], case['p']['y']['shape']) is not None:
@@ -962,6 +1032,17 @@ class Check(PropertyCheck):
             rs = r['state']
             if rs['shape'] != S or [num(v) for v in rs['x']] != X or [num(v) for v in rs['y']] != Y:
                 bad('history_receiver_changed', f"x={rs['x'][:6]} y={rs['y'][:6]} expected x={[frac(v) for v in X[:6]]} y={[frac(v) for v in Y[:6]]}", i)
+                return V
+            exp_c = step['_copies']
+            got_c = r['copies']
+            if len(got_c) == len(exp_c):
+                for j, (g, e) in enumerate(zip(got_c, exp_c)):
+                    if g['shape'] != e['shape'] or [num(v) for v in g['x']] != e['x'] or [num(v) for v in g['y']] != e['y']:
+                        bad('copy_not_independent', f"copy #{j} now holds x={g['x'][:6]} y={g['y'][:6]}, expected "
+                            f"x={[frac(v) for v in e['x'][:6]]} y={[frac(v) for v in e['y'][:6]]}", i)
+                        return V
+            elif not (op == 'copy' and is_err(r.get('copy'))):
+                bad('copy_count', f'{len(got_c)} copies alive, expected {len(exp_c)}', i)
                 return V
             if op == 'to_sky':
                 if is_err(r.get('sky')):
@@ -1001,6 +1082,24 @@ class Check(PropertyCheck):
             elif op == 'edit':
                 if 'edit' in r:
                     bad('edit_failed', r['edit'], i)
+            elif op == 'copy':
+                c = r['copy']
+                if is_err(c):
+                    bad('copy_raised', c, i)
+                    return V
+                if not r.get('is_pixcoord') or c['shape'] != S or c['scalar'] != (S == []) or \
+                        [num(v) for v in c['x']] != X or [num(v) for v in c['y']] != Y:
+                    bad('copy_not_current_values', f"{step['how']} of {step['who']}: x={c['x'][:6]} y={c['y'][:6]} "
+                        f"expected x={[frac(v) for v in X[:6]]} y={[frac(v) for v in Y[:6]]}", i)
+                if step['how'] != 'copy.copy':
+                    if r.get('shares_orig'):
+                        bad('copy_shares_memory_with_original', f"{step['how']} of {step['who']}", i)
+                    if any(r.get('shares_prev', [])):
+                        bad('copy_shares_memory_with_earlier_copy', f"{step['how']} of {step['who']}: shares with copies "
+                            f"{[j for j, b_ in enumerate(r['shares_prev']) if b_]}", i)
+            elif op == 'copy_edit':
+                if 'edit' in r:
+                    bad('edit_of_copy_failed', r['edit'], i)
             elif op == 'sep':
                 d = r['d']
                 so, xo, yo = self._hist_state0({'p': step['o']}).values()
